@@ -80,6 +80,7 @@ type lookupRec struct {
 	arrivals   [2]int
 	udpQueries int
 	tcpConns   int
+	tcpStart   time.Time
 	tcpAsked   [2]bool
 	tcpQueries int
 	log        []*sentRec
@@ -172,6 +173,49 @@ func (l *lookupRec) add(rec *sentRec) {
 	rec.AtRel = rec.At.Sub(l.t0).String()
 	l.log = append(l.log, rec)
 	l.mu.Unlock()
+}
+
+const (
+	resendEvery   = 2 * time.Second
+	transportTime = 20 * time.Second
+)
+
+// nextWake tells the driver how much virtual time can pass before the upstream has to do anything again: up to the
+// next resend that meets a non-silent step, up to the end of the UDP exchange (20 s), or - once TCP is in use - up to
+// the end of the TCP exchange. started is false while no query has arrived at all.
+func (l *lookupRec) nextWake(now time.Time) (d time.Duration, started bool) {
+	l.mu.Lock()
+	defer l.mu.Unlock()
+	if l.tcpConns > 0 {
+		if d = l.tcpStart.Add(transportTime).Sub(now); d <= 0 {
+			d = resendEvery
+		}
+		return d, true
+	}
+	if l.udpQueries == 0 {
+		return resendEvery, false
+	}
+	quiet := 1 << 20
+	for fi := 0; fi < 2; fi++ {
+		n := 0
+		for k := l.arrivals[fi]; ; k++ {
+			if k >= len(l.sc.UDP[fi]) {
+				n = 1 << 20
+				break
+			}
+			st := l.sc.UDP[fi][k]
+			if st.Main != nil || len(st.Pre) > 0 || len(st.Post) > 0 {
+				break
+			}
+			n++
+		}
+		quiet = min(quiet, n)
+	}
+	d = time.Duration(min(quiet+1, 10)) * resendEvery
+	if end := l.t0.Add(transportTime).Sub(now); end > 0 && end < d {
+		d = end
+	}
+	return d, true
 }
 
 func (l *lookupRec) ev(format string, a ...any) {
@@ -346,8 +390,10 @@ func famIdx(fam int) int {
 
 func (u *upstream) reactUDP(l *lookupRec, q udpQuery) {
 	fi := famIdx(q.fam)
+	l.mu.Lock()
 	k := l.arrivals[fi]
 	l.arrivals[fi]++
+	l.mu.Unlock()
 	if k >= len(l.sc.UDP[fi]) {
 		return
 	}
@@ -402,12 +448,27 @@ func (u *upstream) tcpLoop() {
 			u.busy.Add(-1)
 			continue
 		}
+		l.mu.Lock()
 		k := l.tcpConns
 		l.tcpConns++
+		if k == 0 {
+			l.tcpStart = vtime.Now()
+		}
+		l.mu.Unlock()
 		go func() {
-			defer u.busy.Add(-1)
-			u.serveTCP(l, c, k)
-			u.activity.Add(1)
+			parked := false
+			u.serveTCP(l, c, k, func() {
+				// from here on the handler only waits for the resolver to close: it is not "busy" any more
+				if !parked {
+					parked = true
+					u.activity.Add(1)
+					u.busy.Add(-1)
+				}
+			})
+			if !parked {
+				u.activity.Add(1)
+				u.busy.Add(-1)
+			}
 		}()
 	}
 }
@@ -427,7 +488,7 @@ func moreData(c *net.TCPConn) bool {
 	return n > 0
 }
 
-func (u *upstream) serveTCP(l *lookupRec, c *net.TCPConn, k int) {
+func (u *upstream) serveTCP(l *lookupRec, c *net.TCPConn, k int, park func()) {
 	defer c.Close()
 	var cs connScript
 	if k < len(l.sc.TCP) {
@@ -502,12 +563,14 @@ func (u *upstream) serveTCP(l *lookupRec, c *net.TCPConn, k int) {
 	}
 	if cs.Term == "hang" {
 		// keep the connection open and silent until the resolver gives up (it closes, we see EOF)
+		park()
 		io.Copy(io.Discard, c)
 		l.ev("tcp conn #%d: peer closed", k)
 		return
 	}
 	// orderly close: FIN behind the last message
 	c.CloseWrite()
+	park()
 	io.Copy(io.Discard, c)
 }
 
